@@ -17,7 +17,7 @@ from harness import lab, scen
 from harness.common import Ctx, driver, pmap, use_repo
 
 FAULTS = [
-    "none", "forcing_starts_late", "forcing_ends_early", "frames_out_of_order", "frame_duplicated_across_files",
+    "none", "forcing_starts_late", "forcing_ends_early", "forcing_starts_fraction_late", "forcing_ends_fraction_early", "frames_out_of_order", "frame_duplicated_across_files",
     "missing_start", "missing_stop", "missing_dt", "stop_wrong_side", "release_before_start", "release_after_stop",
     "release_at_stop_only", "release_without_position", "no_grid_file", "no_forcing_file", "no_release_file",
     "empty_release_file_name", "no_config_file", "no_time_section", "no_tracker_section", "no_release_section",
@@ -60,6 +60,24 @@ def apply_fault(sc, fault, d):
         sc["cuts"] = []
     for key in ("U", "V", "T", "W"):
         sc[key] = sc[key][: len(sc["fsteps"])]
+    frac_shift = {}
+    if fault == "forcing_starts_fraction_late":
+        # the frame that should cover the start lies a fraction of a time step inside the window
+        sc["fsteps"] = [s for s in sc["fsteps"] if s >= 0]
+        if sc["fsteps"][0] != 0:
+            sc["fsteps"] = [0] + sc["fsteps"]
+        sc["cuts"] = []
+        frac_shift = {0: scen.DT // 4}
+    if fault == "forcing_ends_fraction_early":
+        sc["fsteps"] = [s for s in sc["fsteps"] if s <= sc["nsteps"]]
+        if sc["fsteps"][-1] != sc["nsteps"]:
+            sc["fsteps"] = sc["fsteps"] + [sc["nsteps"]]
+        sc["cuts"] = []
+        frac_shift = {len(sc["fsteps"]) - 1: -(scen.DT // 4)}
+    if frac_shift:
+        nf = len(sc["fsteps"])
+        for key in ("U", "V", "T", "W"):
+            arr = np.array(sc[key]); sc[key] = np.resize(arr, (nf,) + arr.shape[1:]).tolist()
     if fault == "release_before_start":
         for r in sc["rows"]:
             r["step"] = -3 if not sc["continuous"] else r["step"]
@@ -97,6 +115,18 @@ def apply_fault(sc, fault, d):
         for members in (files if not sc["rev"] else files[::-1]):
             mem = members[::-1] if sc["rev"] else members
             ftimes.append([scen.sim2time(sc, sc["fsteps"][m]) for m in mem])
+    if frac_shift:
+        # one file, frame times in simulation direction shifted by a fraction of dt at one end
+        for f in names:
+            os.remove(f)
+        order = list(range(len(sc["fsteps"])))
+        times_sim = [scen.sim2time(sc, sc["fsteps"][m]) + sg * frac_shift.get(m, 0) for m in order]
+        ts = sorted(times_sim)
+        lab.make_grid_forcing(d / "forcing_000.nc", ts, imax=sc["imax"], jmax=sc["jmax"], N=sc["N"], h=np.array(sc["h"]),
+                              mask=np.array(sc["mask"]), dx=np.array(sc["dx"]), scal=dict(temp=lambda t, kk, j, i: 0.0 * kk) if sc["scalars"] else None,
+                              w=(lambda t, kk, j, i: 0.0 * kk) if sc["vertadv"] else None)
+        ftimes = [ts]
+        names = [str(d / "forcing_000.nc")]
     setup["forcing_files"] = ftimes
     start, stop = sc["start"], scen.sim2time(sc, sc["nsteps"])
     setup["start"], setup["stop"] = start, stop
